@@ -2,9 +2,19 @@
 //!
 //! ONE REQUEST LINE = ONE SELF-CONTAINED HISTORY over any number of named stores:
 //!   H <op> ; <op> ; …
-//!     new <n> <LD|FD|LG|FG|TI> <16|32>   ins <n> <quad>   ens <n> <term>   rem <n> <quad>
+//!     new <n> <LD|FD|LG|FG|TI> <6|16|32|64>   ins <n> <quad>   ens <n> <term>   rem <n> <quad>
 //!     fill <n> <k> <off> <lit|iri|qt|lang>   clone <a> <b>   cfrom <a> <b>   drop <n>
-//!     swap <a> <b>   mv <a> <b>   box <n>   take <a> <b>   all <n>
+//!     swap <a> <b>   mv <a> <b>   box <n>   take <a> <b>   all <n>   dbg <n>
+//!     esc <n> <x> <term>   resc <x>   desc <x>   via <own|ref>
+//!
+//! Width `6` is `I6`, an `Index` type defined HERE (`Index` is a public trait) with `MAX = 6`: every
+//! history reaches "index full".  `esc` clones the term `Term::eq` to <term> that the store lends
+//! (`get_term` / `triples()` / `quads()`) and KEEPS the clone as <x> — possible in safe code only while
+//! the store lends `&SimpleTerm<'static>` (build.rs: cfg `term_escapes`); the kept term is never
+//! dereferenced again: the address ranges of its borrowed strings are taken while the store is alive
+//! and compared with the blocks the allocator has released since (`k.E.x`).  `via own` makes every
+//! later ins/rem/ens/fill/esc hand its terms to the store through accessors that return OWNED
+//! `MownStr`s (the `is_owned` branch of `ensure_owned`: clone + transmute).
 //!
 //! After every op, for every live store: the audit vector of the cfg-guarded hook
 //! `verif_audit` (when /repo has it: `has_audit`), and the content — ONLY of stores that are safe
@@ -16,17 +26,104 @@ static ALLOC: quarantine::Quarantine = quarantine::Quarantine;
 
 use sophia_api::dataset::{Dataset, MutableDataset};
 use sophia_api::graph::{Graph, MutableGraph};
-use sophia_api::term::SimpleTerm;
+use sophia_api::term::{BnodeId, IriRef, LanguageTag, SimpleTerm, Term, TermKind, VarName};
+use sophia_api::MownStr;
 use sophia_inmem::dataset::{GenericFastDataset, GenericLightDataset};
 use sophia_inmem::graph::{GenericFastGraph, GenericLightGraph};
 use sophia_inmem::index::{Index, SimpleTermIndex, TermIndex};
 use std::collections::{BTreeMap, BTreeSet};
+use std::ops::Deref;
+use std::panic::AssertUnwindSafe;
 use vhcore::tgen::{self, TermGen};
 use vhcore::util::*;
 use vhcore::GenCtx;
 
-type ST = SimpleTerm<'static>;
 type Ranges = Vec<(usize, usize)>;
+
+/// An index type with room for six terms (`0..=5`; `6` stands for the default graph), shaped like
+/// the `u16` / `u32` ones of sophia_inmem: `from_usize` panics beyond `MAX`.
+#[derive(Clone, Copy, Debug, Default, PartialEq, Eq, PartialOrd, Ord)]
+pub struct I6(u8);
+impl Index for I6 {
+    const ZERO: Self = I6(0);
+    const MAX: Self = I6(6);
+    fn from_usize(other: usize) -> Self {
+        assert!(other <= 6, "usize too big to be converted to I6");
+        I6(other as u8)
+    }
+    fn into_usize(self) -> usize {
+        self.0 as usize
+    }
+}
+
+// The public aliases must be what the harness instantiates (a retargeted alias = build failure here).
+#[allow(dead_code, clippy::type_complexity)]
+fn _aliases_are_the_tested_types(
+    a: (sophia_inmem::graph::LightGraph, sophia_inmem::graph::FastGraph, sophia_inmem::dataset::LightDataset, sophia_inmem::dataset::FastDataset),
+    b: (sophia_inmem::graph::small::LightGraph, sophia_inmem::graph::small::FastGraph, sophia_inmem::dataset::small::LightDataset, sophia_inmem::dataset::small::FastDataset),
+) -> (
+    (GenericLightGraph<SimpleTermIndex<u32>>, GenericFastGraph<SimpleTermIndex<u32>>, GenericLightDataset<SimpleTermIndex<u32>>, GenericFastDataset<SimpleTermIndex<u32>>),
+    (GenericLightGraph<SimpleTermIndex<u16>>, GenericFastGraph<SimpleTermIndex<u16>>, GenericLightDataset<SimpleTermIndex<u16>>, GenericFastDataset<SimpleTermIndex<u16>>),
+) {
+    (a, b)
+}
+
+/// A caller's term whose accessors hand out OWNED `MownStr`s (as terms backed by `i32`, `f64`, `String` … do):
+/// `SimpleTerm::from_term` then takes the `is_owned` branch of `ensure_owned` (clone + transmute to 'static).
+#[derive(Clone, Copy, Debug)]
+struct OwnT<'a>(&'a T);
+fn own(s: &str) -> MownStr<'static> {
+    MownStr::from(s.to_string())
+}
+impl<'a> Term for OwnT<'a> {
+    type BorrowTerm<'x>
+        = OwnT<'x>
+    where
+        'a: 'x;
+    fn kind(&self) -> TermKind {
+        match self.0 {
+            T::Iri(_) => TermKind::Iri,
+            T::Bnode(_) => TermKind::BlankNode,
+            T::Var(_) => TermKind::Variable,
+            T::Lit(..) | T::Lang(..) => TermKind::Literal,
+            T::Triple(_) => TermKind::Triple,
+        }
+    }
+    fn iri(&self) -> Option<IriRef<MownStr<'_>>> {
+        if let T::Iri(s) = self.0 { Some(IriRef::new_unchecked(own(s))) } else { None }
+    }
+    fn bnode_id(&self) -> Option<BnodeId<MownStr<'_>>> {
+        if let T::Bnode(s) = self.0 { Some(BnodeId::new_unchecked(own(s))) } else { None }
+    }
+    fn variable(&self) -> Option<VarName<MownStr<'_>>> {
+        if let T::Var(s) = self.0 { Some(VarName::new_unchecked(own(s))) } else { None }
+    }
+    fn lexical_form(&self) -> Option<MownStr<'_>> {
+        match self.0 {
+            T::Lit(l, _) | T::Lang(l, _) => Some(own(l)),
+            _ => None,
+        }
+    }
+    fn datatype(&self) -> Option<IriRef<MownStr<'_>>> {
+        match self.0 {
+            T::Lit(_, d) => Some(IriRef::new_unchecked(own(d))),
+            T::Lang(..) => Some(IriRef::new_unchecked(own("http://www.w3.org/1999/02/22-rdf-syntax-ns#langString"))),
+            _ => None,
+        }
+    }
+    fn language_tag(&self) -> Option<LanguageTag<MownStr<'_>>> {
+        if let T::Lang(_, g) = self.0 { Some(LanguageTag::new_unchecked(own(g))) } else { None }
+    }
+    fn triple(&self) -> Option<[OwnT<'_>; 3]> {
+        if let T::Triple(b) = self.0 { Some([OwnT(&b[0]), OwnT(&b[1]), OwnT(&b[2])]) } else { None }
+    }
+    fn to_triple(self) -> Option<[Self; 3]> {
+        if let T::Triple(b) = self.0 { Some([OwnT(&b[0]), OwnT(&b[1]), OwnT(&b[2])]) } else { None }
+    }
+    fn borrow_term(&self) -> OwnT<'_> {
+        *self
+    }
+}
 
 // ---------------------------------------------------------------- rendering (as the Lean driver)
 
@@ -75,7 +172,7 @@ fn rle(v: &[char]) -> String {
 }
 
 /// address ranges of the (non-empty) strings of a term that is known to be readable
-fn ranges_of(t: &ST, out: &mut Ranges) {
+fn ranges_of(t: &SimpleTerm<'_>, out: &mut Ranges) {
     let mut push = |s: &str| {
         if !s.is_empty() {
             out.push((s.as_ptr() as usize, s.len()))
@@ -101,7 +198,58 @@ fn ranges_of(t: &ST, out: &mut Ranges) {
     }
 }
 
-// ---------------------------------------------------------------- the ten store types behind one trait
+/// address ranges of the non-empty strings of `t` that `t` does NOT own (`t` is readable right now)
+fn borrowed_ranges(t: &SimpleTerm<'_>, out: &mut Ranges) {
+    let mut push = |m: &MownStr<'_>| {
+        if !m.is_owned() && !m.is_empty() {
+            out.push((m.as_ptr() as usize, m.len()))
+        }
+    };
+    match t {
+        SimpleTerm::Iri(i) => push(i.deref()),
+        SimpleTerm::BlankNode(b) => push(b.deref()),
+        SimpleTerm::Variable(v) => push(v.deref()),
+        SimpleTerm::LiteralDatatype(l, d) => {
+            push(l);
+            push(d.deref())
+        }
+        SimpleTerm::LiteralLanguage(l, g) => {
+            push(l);
+            push(g.deref())
+        }
+        SimpleTerm::Triple(b) => {
+            for c in b.iter() {
+                borrowed_ranges(c, out)
+            }
+        }
+    }
+}
+
+/// A term cloned out of a store and kept.  `term` is never read again; `borrowed` = where its
+/// borrowed strings point (taken when it was made).
+struct Kept {
+    #[allow(dead_code)]
+    term: Option<SimpleTerm<'static>>,
+    borrowed: Ranges,
+}
+
+/// `let x: SimpleTerm<'static> = lent.clone();` — what safe code can write while the store lends `&SimpleTerm<'static>`
+#[cfg(term_escapes)]
+fn keep(lent: &SimpleTerm<'static>) -> Option<Kept> {
+    let term: SimpleTerm<'static> = lent.clone();
+    let mut borrowed = vec![];
+    borrowed_ranges(&term, &mut borrowed);
+    Some(Kept { term: Some(term), borrowed })
+}
+/// with a term type bound to the borrow of the store the clone lives and dies inside that borrow
+#[cfg(not(term_escapes))]
+fn keep(lent: &SimpleTerm<'_>) -> Option<Kept> {
+    let c = lent.clone();
+    let _ = tgen::view(&c);
+    None
+}
+
+// ---------------------------------------------------------------- the twenty store types behind one trait
 
 #[derive(Clone, Copy, PartialEq, Eq)]
 enum R {
@@ -109,20 +257,27 @@ enum R {
     Idx(usize),
     Full,
     Bad,
+    Panic,
 }
+
+/// `Some(kept)` = a lent term equal to `t` was found (and cloned); the inner `None` = the clone could not be kept
+type EscOut = Option<Option<Kept>>;
 
 trait Ops: Clone + Default {
     /// 4 = dataset, 3 = graph, 0 = bare term index
     const N: usize;
-    fn ins(&mut self, _q: &Q) -> R {
+    fn ins(&mut self, _q: &Q, _own: bool) -> R {
         R::Bad
     }
-    fn rem(&mut self, _q: &Q) -> R {
+    fn rem(&mut self, _q: &Q, _own: bool) -> R {
         R::Bad
     }
-    fn ens(&mut self, _t: &T) -> R {
+    fn ens(&mut self, _t: &T, _own: bool) -> R {
         R::Bad
     }
+    /// clone (and keep, if the types allow) the first lent term `Term::eq` to `t`
+    fn esc(&self, t: &T, own: bool) -> EscOut;
+    fn dbg(&self) -> usize;
     /// rendered items + address ranges of every string read.  ONLY called on readable stores.
     fn read(&self) -> (Vec<String>, Ranges);
     fn audit(&self) -> Option<Vec<(bool, bool)>>;
@@ -132,19 +287,44 @@ macro_rules! dataset_ops {
     ($ty:ident) => {
         impl<I: Index + Default> Ops for $ty<SimpleTermIndex<I>> {
             const N: usize = 4;
-            fn ins(&mut self, q: &Q) -> R {
-                let ([s, p, o], g) = tgen::q_to_simple(q);
-                match MutableDataset::insert(self, &s, &p, &o, g.as_ref()) {
+            fn ins(&mut self, q: &Q, own: bool) -> R {
+                let r = if own {
+                    MutableDataset::insert(self, OwnT(&q.s), OwnT(&q.p), OwnT(&q.o), q.g.as_ref().map(OwnT))
+                } else {
+                    let ([s, p, o], g) = tgen::q_to_simple(q);
+                    MutableDataset::insert(self, &s, &p, &o, g.as_ref())
+                };
+                match r {
                     Ok(b) => R::Flag(b),
                     Err(_) => R::Full,
                 }
             }
-            fn rem(&mut self, q: &Q) -> R {
-                let ([s, p, o], g) = tgen::q_to_simple(q);
-                match MutableDataset::remove(self, &s, &p, &o, g.as_ref()) {
+            fn rem(&mut self, q: &Q, own: bool) -> R {
+                let r = if own {
+                    MutableDataset::remove(self, OwnT(&q.s), OwnT(&q.p), OwnT(&q.o), q.g.as_ref().map(OwnT))
+                } else {
+                    let ([s, p, o], g) = tgen::q_to_simple(q);
+                    MutableDataset::remove(self, &s, &p, &o, g.as_ref())
+                };
+                match r {
                     Ok(b) => R::Flag(b),
                     Err(_) => R::Full,
                 }
+            }
+            fn esc(&self, t: &T, own: bool) -> EscOut {
+                let st = tgen::to_simple(t);
+                for q in self.quads() {
+                    let (g, [s, p, o]) = q.unwrap();
+                    for lent in [s, p, o].into_iter().chain(g) {
+                        if if own { Term::eq(lent, OwnT(t)) } else { Term::eq(lent, &st) } {
+                            return Some(keep(lent));
+                        }
+                    }
+                }
+                None
+            }
+            fn dbg(&self) -> usize {
+                format!("{:?}", self).len()
             }
             fn read(&self) -> (Vec<String>, Ranges) {
                 let mut items = vec![];
@@ -176,19 +356,43 @@ macro_rules! graph_ops {
     ($ty:ident) => {
         impl<I: Index + Default> Ops for $ty<SimpleTermIndex<I>> {
             const N: usize = 3;
-            fn ins(&mut self, q: &Q) -> R {
-                let ([s, p, o], _) = tgen::q_to_simple(q);
-                match MutableGraph::insert(self, &s, &p, &o) {
+            fn ins(&mut self, q: &Q, own: bool) -> R {
+                let r = if own {
+                    MutableGraph::insert(self, OwnT(&q.s), OwnT(&q.p), OwnT(&q.o))
+                } else {
+                    let ([s, p, o], _) = tgen::q_to_simple(q);
+                    MutableGraph::insert(self, &s, &p, &o)
+                };
+                match r {
                     Ok(b) => R::Flag(b),
                     Err(_) => R::Full,
                 }
             }
-            fn rem(&mut self, q: &Q) -> R {
-                let ([s, p, o], _) = tgen::q_to_simple(q);
-                match MutableGraph::remove(self, &s, &p, &o) {
+            fn rem(&mut self, q: &Q, own: bool) -> R {
+                let r = if own {
+                    MutableGraph::remove(self, OwnT(&q.s), OwnT(&q.p), OwnT(&q.o))
+                } else {
+                    let ([s, p, o], _) = tgen::q_to_simple(q);
+                    MutableGraph::remove(self, &s, &p, &o)
+                };
+                match r {
                     Ok(b) => R::Flag(b),
                     Err(_) => R::Full,
                 }
+            }
+            fn esc(&self, t: &T, own: bool) -> EscOut {
+                let st = tgen::to_simple(t);
+                for tr in self.triples() {
+                    for lent in tr.unwrap() {
+                        if if own { Term::eq(lent, OwnT(t)) } else { Term::eq(lent, &st) } {
+                            return Some(keep(lent));
+                        }
+                    }
+                }
+                None
+            }
+            fn dbg(&self) -> usize {
+                format!("{:?}", self).len()
             }
             fn read(&self) -> (Vec<String>, Ranges) {
                 let mut items = vec![];
@@ -223,11 +427,19 @@ graph_ops!(GenericFastGraph);
 
 impl<I: Index + Default> Ops for SimpleTermIndex<I> {
     const N: usize = 0;
-    fn ens(&mut self, t: &T) -> R {
-        match self.ensure_index(tgen::to_simple(t)) {
+    fn ens(&mut self, t: &T, own: bool) -> R {
+        let r = if own { self.ensure_index(OwnT(t)) } else { self.ensure_index(tgen::to_simple(t)) };
+        match r {
             Ok(i) => R::Idx(i.into_usize()),
             Err(_) => R::Full,
         }
+    }
+    fn esc(&self, t: &T, own: bool) -> EscOut {
+        let i = if own { self.get_index(OwnT(t)) } else { self.get_index(tgen::to_simple(t)) }?;
+        Some(keep(self.get_term(i)))
+    }
+    fn dbg(&self) -> usize {
+        format!("{:?}", self).len()
     }
     fn read(&self) -> (Vec<String>, Ranges) {
         let mut items = vec![];
@@ -254,14 +466,24 @@ impl<I: Index + Default> Ops for SimpleTermIndex<I> {
 enum Store {
     LD32(GenericLightDataset<SimpleTermIndex<u32>>),
     LD16(GenericLightDataset<SimpleTermIndex<u16>>),
+    LD6(GenericLightDataset<SimpleTermIndex<I6>>),
+    LD64(GenericLightDataset<SimpleTermIndex<usize>>),
     FD32(GenericFastDataset<SimpleTermIndex<u32>>),
     FD16(GenericFastDataset<SimpleTermIndex<u16>>),
+    FD6(GenericFastDataset<SimpleTermIndex<I6>>),
+    FD64(GenericFastDataset<SimpleTermIndex<usize>>),
     LG32(GenericLightGraph<SimpleTermIndex<u32>>),
     LG16(GenericLightGraph<SimpleTermIndex<u16>>),
+    LG6(GenericLightGraph<SimpleTermIndex<I6>>),
+    LG64(GenericLightGraph<SimpleTermIndex<usize>>),
     FG32(GenericFastGraph<SimpleTermIndex<u32>>),
     FG16(GenericFastGraph<SimpleTermIndex<u16>>),
+    FG6(GenericFastGraph<SimpleTermIndex<I6>>),
+    FG64(GenericFastGraph<SimpleTermIndex<usize>>),
     TI32(SimpleTermIndex<u32>),
     TI16(SimpleTermIndex<u16>),
+    TI6(SimpleTermIndex<I6>),
+    TI64(SimpleTermIndex<usize>),
 }
 
 macro_rules! each {
@@ -269,14 +491,24 @@ macro_rules! each {
         match $s {
             Store::LD32($v) => $body,
             Store::LD16($v) => $body,
+            Store::LD6($v) => $body,
+            Store::LD64($v) => $body,
             Store::FD32($v) => $body,
             Store::FD16($v) => $body,
+            Store::FD6($v) => $body,
+            Store::FD64($v) => $body,
             Store::LG32($v) => $body,
             Store::LG16($v) => $body,
+            Store::LG6($v) => $body,
+            Store::LG64($v) => $body,
             Store::FG32($v) => $body,
             Store::FG16($v) => $body,
+            Store::FG6($v) => $body,
+            Store::FG64($v) => $body,
             Store::TI32($v) => $body,
             Store::TI16($v) => $body,
+            Store::TI6($v) => $body,
+            Store::TI64($v) => $body,
         }
     };
 }
@@ -286,14 +518,24 @@ macro_rules! both {
         match ($a, $b) {
             (Store::LD32($x), Store::LD32($y)) => $body,
             (Store::LD16($x), Store::LD16($y)) => $body,
+            (Store::LD6($x), Store::LD6($y)) => $body,
+            (Store::LD64($x), Store::LD64($y)) => $body,
             (Store::FD32($x), Store::FD32($y)) => $body,
             (Store::FD16($x), Store::FD16($y)) => $body,
+            (Store::FD6($x), Store::FD6($y)) => $body,
+            (Store::FD64($x), Store::FD64($y)) => $body,
             (Store::LG32($x), Store::LG32($y)) => $body,
             (Store::LG16($x), Store::LG16($y)) => $body,
+            (Store::LG6($x), Store::LG6($y)) => $body,
+            (Store::LG64($x), Store::LG64($y)) => $body,
             (Store::FG32($x), Store::FG32($y)) => $body,
             (Store::FG16($x), Store::FG16($y)) => $body,
+            (Store::FG6($x), Store::FG6($y)) => $body,
+            (Store::FG64($x), Store::FG64($y)) => $body,
             (Store::TI32($x), Store::TI32($y)) => $body,
             (Store::TI16($x), Store::TI16($y)) => $body,
+            (Store::TI6($x), Store::TI6($y)) => $body,
+            (Store::TI64($x), Store::TI64($y)) => $body,
             _ => $other,
         }
     };
@@ -304,14 +546,24 @@ macro_rules! map_same {
         match $s {
             Store::LD32($v) => Store::LD32($body),
             Store::LD16($v) => Store::LD16($body),
+            Store::LD6($v) => Store::LD6($body),
+            Store::LD64($v) => Store::LD64($body),
             Store::FD32($v) => Store::FD32($body),
             Store::FD16($v) => Store::FD16($body),
+            Store::FD6($v) => Store::FD6($body),
+            Store::FD64($v) => Store::FD64($body),
             Store::LG32($v) => Store::LG32($body),
             Store::LG16($v) => Store::LG16($body),
+            Store::LG6($v) => Store::LG6($body),
+            Store::LG64($v) => Store::LG64($body),
             Store::FG32($v) => Store::FG32($body),
             Store::FG16($v) => Store::FG16($body),
+            Store::FG6($v) => Store::FG6($body),
+            Store::FG64($v) => Store::FG64($body),
             Store::TI32($v) => Store::TI32($body),
             Store::TI16($v) => Store::TI16($body),
+            Store::TI6($v) => Store::TI6($body),
+            Store::TI64($v) => Store::TI64($body),
         }
     };
 }
@@ -325,14 +577,24 @@ impl Store {
         Some(match (kind, width) {
             ("LD", "32") => Store::LD32(Default::default()),
             ("LD", "16") => Store::LD16(Default::default()),
+            ("LD", "6") => Store::LD6(Default::default()),
+            ("LD", "64") => Store::LD64(Default::default()),
             ("FD", "32") => Store::FD32(Default::default()),
             ("FD", "16") => Store::FD16(Default::default()),
+            ("FD", "6") => Store::FD6(Default::default()),
+            ("FD", "64") => Store::FD64(Default::default()),
             ("LG", "32") => Store::LG32(Default::default()),
             ("LG", "16") => Store::LG16(Default::default()),
+            ("LG", "6") => Store::LG6(Default::default()),
+            ("LG", "64") => Store::LG64(Default::default()),
             ("FG", "32") => Store::FG32(Default::default()),
             ("FG", "16") => Store::FG16(Default::default()),
+            ("FG", "6") => Store::FG6(Default::default()),
+            ("FG", "64") => Store::FG64(Default::default()),
             ("TI", "32") => Store::TI32(Default::default()),
             ("TI", "16") => Store::TI16(Default::default()),
+            ("TI", "6") => Store::TI6(Default::default()),
+            ("TI", "64") => Store::TI64(Default::default()),
             _ => return None,
         })
     }
@@ -386,6 +648,10 @@ struct WorldR {
     stores: BTreeMap<String, Entry>,
     live: BTreeSet<u64>,
     next: u64,
+    /// terms cloned out of stores and kept (`esc`)
+    kept: BTreeMap<String, Kept>,
+    /// `via own`: terms reach the stores through accessors returning owned strings
+    own: bool,
 }
 
 impl WorldR {
@@ -408,7 +674,13 @@ fn res(r: R) -> String {
         R::Idx(i) => format!("i{}", i),
         R::Full => "full".into(),
         R::Bad => "bad".into(),
+        R::Panic => "panic".into(),
     }
+}
+
+/// a panic of the code under test is an outcome (`panic`), not the end of the history
+fn guarded(f: impl FnOnce() -> R) -> R {
+    catch(AssertUnwindSafe(f)).unwrap_or(R::Panic)
 }
 
 fn fill_term(mode: &str, i: usize) -> T {
@@ -453,7 +725,8 @@ fn exec1(w: &mut WorldR, toks: &[&str]) -> String {
             let st = e.slot.get_mut();
             let q = norm_q(q, st.n());
             let ins = toks[0] == "ins";
-            res(each!(st, s => if ins { s.ins(&q) } else { s.rem(&q) }))
+            let own = w.own;
+            res(guarded(|| each!(st, s => if ins { s.ins(&q, own) } else { s.rem(&q, own) })))
         }
         ["ens", n, rest @ ..] => {
             let Some(e) = w.stores.get_mut(*n) else { return bad() };
@@ -462,27 +735,32 @@ fn exec1(w: &mut WorldR, toks: &[&str]) -> String {
             if it.next().is_some() {
                 return bad();
             }
-            res(each!(e.slot.get_mut(), s => s.ens(&t)))
+            let own = w.own;
+            res(guarded(|| each!(e.slot.get_mut(), s => s.ens(&t, own))))
         }
         ["fill", n, k, off, mode] => {
             let Some(e) = w.stores.get_mut(*n) else { return bad() };
             let (Ok(k), Ok(off)) = (k.parse::<usize>(), off.parse::<usize>()) else { return bad() };
             let st = e.slot.get_mut();
             let ti = st.n() == 0;
+            let own = w.own;
             let mut cnt = 0usize;
             for i in off..off + k {
                 let t = fill_term(mode, i);
-                let r = if ti {
-                    each!(st, s => s.ens(&t))
-                } else {
-                    let q = Q { s: T::Iri("x:s".into()), p: T::Iri("x:p".into()), o: t, g: None };
-                    each!(st, s => s.ins(&q))
-                };
+                let r = guarded(|| {
+                    if ti {
+                        each!(st, s => s.ens(&t, own))
+                    } else {
+                        let q = Q { s: T::Iri("x:s".into()), p: T::Iri("x:p".into()), o: t, g: None };
+                        each!(st, s => s.ins(&q, own))
+                    }
+                });
                 match r {
                     R::Idx(_) | R::Flag(true) => cnt += 1,
                     R::Flag(false) => {}
                     R::Full => return "full".into(),
                     R::Bad => return bad(),
+                    R::Panic => return "panic".into(),
                 }
             }
             cnt.to_string()
@@ -492,8 +770,12 @@ fn exec1(w: &mut WorldR, toks: &[&str]) -> String {
                 return bad();
             }
             let Some(e) = w.stores.get(*a) else { return bad() };
+            // the manual `Clone` hashes every `i2t` entry, i.e. reads it: never on a store that is not safe to read
+            if !store_readable(w, e) {
+                return "skipped".into();
+            }
             // `let b = a.clone();`
-            let c = map_same!(e.slot.get(), s => s.clone());
+            let Ok(c) = catch(AssertUnwindSafe(|| map_same!(e.slot.get(), s => s.clone()))) else { return "panic".into() };
             let deps = e.deps.clone();
             w.add(b, c, Some(&deps));
             "ok".into()
@@ -502,6 +784,9 @@ fn exec1(w: &mut WorldR, toks: &[&str]) -> String {
             if a == b || !w.stores.contains_key(*a) || !w.stores.contains_key(*b) {
                 return bad();
             }
+            if !store_readable(w, &w.stores[*a]) {
+                return "skipped".into();
+            }
             let mut eb = w.stores.remove(*b).unwrap();
             let ea = w.stores.get(*a).unwrap();
             if !ea.slot.get().same_type(eb.slot.get()) {
@@ -509,7 +794,10 @@ fn exec1(w: &mut WorldR, toks: &[&str]) -> String {
                 return bad();
             }
             // `b.clone_from(&a);`
-            both!(ea.slot.get(), eb.slot.get_mut(), x, y => y.clone_from(x), else unreachable!());
+            if catch(AssertUnwindSafe(|| both!(ea.slot.get(), eb.slot.get_mut(), x, y => y.clone_from(x), else unreachable!()))).is_err() {
+                w.stores.insert(b.to_string(), eb);
+                return "panic".into();
+            }
             let mut deps = ea.deps.clone();
             w.live.remove(&eb.id); // the old value of `b` is gone
             let id = w.fresh();
@@ -585,7 +873,70 @@ fn exec1(w: &mut WorldR, toks: &[&str]) -> String {
         ["all", a] => {
             if w.stores.contains_key(*a) { "ok".into() } else { bad() }
         }
+        ["dbg", a] => {
+            let Some(e) = w.stores.get(*a) else { return bad() };
+            // `format!("{:?}", a)` walks every key and every entry: only on a store that is safe to read
+            if store_readable(w, e) {
+                let st = e.slot.get();
+                if catch(AssertUnwindSafe(|| each!(st, s => s.dbg()))).is_err() {
+                    return "panic".into();
+                }
+            }
+            "ok".into()
+        }
+        ["esc", a, x, rest @ ..] => {
+            let mut it = rest.iter().copied();
+            let Some(t) = T::parse(&mut it) else { return bad() };
+            if it.next().is_some() {
+                return bad();
+            }
+            let Some(e) = w.stores.get(*a) else { return bad() };
+            if w.kept.contains_key(*x) {
+                return bad();
+            }
+            if !store_readable(w, e) {
+                // never iterate a store that is not safe to read; the model's answer stands alone
+                return "skipped".into();
+            }
+            let st = e.slot.get();
+            let own = w.own;
+            match catch(AssertUnwindSafe(|| each!(st, s => s.esc(&t, own)))) {
+                Err(_) => "panic".into(),
+                Ok(None) => "absent".into(),
+                Ok(Some(None)) => "bounded".into(),
+                Ok(Some(Some(k))) => {
+                    w.kept.insert(x.to_string(), k);
+                    "escaped".into()
+                }
+            }
+        }
+        ["resc", x] => {
+            // the kept term is never dereferenced by the checker (it may dangle): only its existence matters
+            if w.kept.contains_key(*x) { "ok".into() } else { bad() }
+        }
+        ["desc", x] => {
+            if w.kept.remove(*x).is_some() { "ok".into() } else { bad() }
+        }
+        ["via", m] => match *m {
+            "own" => {
+                w.own = true;
+                "ok".into()
+            }
+            "ref" => {
+                w.own = false;
+                "ok".into()
+            }
+            _ => bad(),
+        },
         _ => bad(),
+    }
+}
+
+/// audit clean (hook) resp. no dropped clone-ancestor (no hook)
+fn store_readable(w: &WorldR, e: &Entry) -> bool {
+    match each!(e.slot.get(), s => s.audit()) {
+        Some(v) => v.iter().all(|p| *p == (true, true)),
+        None => e.deps.iter().all(|d| w.live.contains(d)),
     }
 }
 
@@ -663,6 +1014,14 @@ fn report(w: &mut WorldR, k: usize, out: &mut Vec<String>) {
     for (nm, other) in newly {
         w.stores.get_mut(&nm).unwrap().aliased.insert(other);
     }
+    // kept clones of lent terms: does one of their borrowed strings point into a block released since?
+    for (x, kpt) in &w.kept {
+        let dangling = kpt.borrowed.iter().any(|(a, l)| quarantine::released(*a, *l));
+        out.push(format!("{}.E.{}={}", k, x, if dangling { 1 } else { 0 }));
+        if dangling {
+            out.push(format!("FAIL.escape.{}.{}=freed", k, x));
+        }
+    }
     if cfg!(not(has_audit)) {
         for nm in &names {
             let e = &w.stores[nm];
@@ -687,7 +1046,10 @@ pub fn exec(line: &str) -> String {
     // no address is reused while the history runs (see quarantine.rs)
     let _guard = quarantine::begin();
     let mut w = WorldR::default();
-    let mut out = vec![format!("audit={}", if cfg!(has_audit) { "hook" } else { "unavailable" })];
+    let mut out = vec![
+        format!("audit={}", if cfg!(has_audit) { "hook" } else { "unavailable" }),
+        format!("lends={}", if cfg!(term_escapes) { "static" } else { "bounded" }),
+    ];
     for (k, op) in ops.iter().enumerate() {
         let r = exec1(&mut w, op);
         out.push(format!("{}.r={}", k, r));
@@ -702,13 +1064,62 @@ pub fn exec(line: &str) -> String {
 const KINDS: &[(&str, &str)] = &[
     ("LD", "32"), ("FD", "32"), ("LG", "32"), ("FG", "32"), ("TI", "32"),
     ("LD", "16"), ("FD", "16"), ("LG", "16"), ("FG", "16"), ("TI", "16"),
+    ("LD", "6"), ("FD", "6"), ("LG", "6"), ("FG", "6"), ("TI", "6"),
+    // `impl Index for usize`, the third width the crate ships
+    ("LD", "64"), ("FD", "64"), ("LG", "64"), ("FG", "64"), ("TI", "64"),
 ];
 const NAMES: &[&str] = &["a", "b", "c", "d", "e", "f"];
+const KEPT: &[&str] = &["x", "y", "z"];
 
+#[derive(Clone)]
 struct GStore {
     kind: usize,
     pool: Vec<Q>,
     tpool: Vec<T>,
+    /// distinct terms the index has seen (modulo the case of language tags) — only to COUNT what the
+    /// histories reach (index-full refusals), never to decide anything
+    terms: BTreeSet<String>,
+}
+
+impl GStore {
+    fn new(kind: usize) -> GStore {
+        GStore { kind, pool: vec![], tpool: vec![], terms: BTreeSet::new() }
+    }
+    fn cap(&self) -> usize {
+        match KINDS[self.kind].1 {
+            "6" => 6,
+            "16" => 65535,
+            _ => usize::MAX,
+        }
+    }
+    /// `ensure_index(t)`: false = refused (index full)
+    fn see(&mut self, t: &T) -> bool {
+        let k = canon(t).render();
+        if self.terms.contains(&k) {
+            return true;
+        }
+        if self.terms.len() >= self.cap() {
+            return false;
+        }
+        self.terms.insert(k);
+        true
+    }
+    /// terms of a quad in the order the stores look them up; stops at the first refusal
+    fn see_quad(&mut self, q: &Q, stats: &mut Stats) {
+        let graph = KINDS[self.kind].0.ends_with('G');
+        let mut ts: Vec<&T> = vec![&q.s, &q.p, &q.o];
+        if !graph {
+            if let Some(g) = &q.g {
+                ts.push(g);
+            }
+        }
+        for (i, t) in ts.iter().enumerate() {
+            if !self.see(t) {
+                stats.bump(if i == 0 { "reach.index_full.first_term" } else { "reach.index_full.mid_quad" });
+                return;
+            }
+        }
+    }
 }
 
 fn emit_h(ctx: &mut GenCtx, ops: &[String]) {
@@ -717,6 +1128,7 @@ fn emit_h(ctx: &mut GenCtx, ops: &[String]) {
 
 fn random_history(ctx: &mut GenCtx, g: &TermGen, h: usize, maxlen: usize) {
     let mut live: BTreeMap<&'static str, GStore> = BTreeMap::new();
+    let mut kept: BTreeSet<&'static str> = BTreeSet::new();
     let mut ops: Vec<String> = vec![];
     let base = h % KINDS.len();
     let mixed = ctx.rng.chance(1, 5);
@@ -724,6 +1136,12 @@ fn random_history(ctx: &mut GenCtx, g: &TermGen, h: usize, maxlen: usize) {
     let n = ctx.rng.range(6, maxlen);
     ctx.stats.bump(&format!("store.{}{}", KINDS[base].0, KINDS[base].1));
     let mut cloned_live = 0usize;
+    let mut escaped = false;
+    // how the terms reach the stores: accessors returning borrowed strings (`SimpleTerm`) or owned ones
+    if ctx.rng.chance(1, 3) {
+        ops.push("via own".into());
+        ctx.stats.bump("via.own_from_start");
+    }
     for step in 0..n {
         let free: Vec<&'static str> = NAMES.iter().copied().filter(|x| !live.contains_key(x)).collect();
         let names: Vec<&'static str> = live.keys().copied().collect();
@@ -731,7 +1149,7 @@ fn random_history(ctx: &mut GenCtx, g: &TermGen, h: usize, maxlen: usize) {
             let kind = if mixed { ctx.rng.below(KINDS.len()) } else { base };
             let nm = *ctx.rng.pick(&free);
             ops.push(format!("new {} {} {}", nm, KINDS[kind].0, KINDS[kind].1));
-            live.insert(nm, GStore { kind, pool: vec![], tpool: vec![] });
+            live.insert(nm, GStore::new(kind));
             ctx.stats.bump("op.new");
             continue;
         }
@@ -739,7 +1157,7 @@ fn random_history(ctx: &mut GenCtx, g: &TermGen, h: usize, maxlen: usize) {
         let ka = live[a].kind;
         let ti = KINDS[ka].0 == "TI";
         let graph = KINDS[ka].0.ends_with('G');
-        let roll = ctx.rng.below(100);
+        let roll = ctx.rng.below(112);
         let op: &str = match roll {
             0..=37 => "ins",
             38..=43 => "rem",
@@ -752,7 +1170,12 @@ fn random_history(ctx: &mut GenCtx, g: &TermGen, h: usize, maxlen: usize) {
             81..=84 => "cfrom",
             85..=91 => "all",
             92..=95 => "fill",
-            _ => "new",
+            96..=99 => "new",
+            100..=104 => "esc",
+            105..=107 => "dbg",
+            108 => "resc",
+            109 => "desc",
+            _ => "via",
         };
         // the first steps build something worth cloning
         let op = if step < 3 && !matches!(op, "ins" | "fill") { "ins" } else { op };
@@ -763,7 +1186,11 @@ fn random_history(ctx: &mut GenCtx, g: &TermGen, h: usize, maxlen: usize) {
                     if matches!(t, T::Triple(_)) {
                         ctx.stats.bump("term.quoted_triple");
                     }
-                    live.get_mut(a).unwrap().tpool.push(t.clone());
+                    let st = live.get_mut(a).unwrap();
+                    if !st.see(&t) {
+                        ctx.stats.bump("reach.index_full.first_term");
+                    }
+                    st.tpool.push(t.clone());
                     Some(format!("ens {} {}", a, t.render()))
                 } else {
                     let mut q = if !live[a].pool.is_empty() && ctx.rng.chance(1, 4) {
@@ -779,7 +1206,9 @@ fn random_history(ctx: &mut GenCtx, g: &TermGen, h: usize, maxlen: usize) {
                     if [&q.s, &q.p, &q.o].iter().any(|t| matches!(t, T::Triple(_))) {
                         ctx.stats.bump("term.quoted_triple");
                     }
-                    live.get_mut(a).unwrap().pool.push(q.clone());
+                    let st = live.get_mut(a).unwrap();
+                    st.see_quad(&q, &mut ctx.stats);
+                    st.pool.push(q.clone());
                     Some(format!("ins {} {}", a, q.render()))
                 }
             }
@@ -792,7 +1221,10 @@ fn random_history(ctx: &mut GenCtx, g: &TermGen, h: usize, maxlen: usize) {
             }
             "clone" if !free.is_empty() => {
                 let b = *ctx.rng.pick(&free);
-                let c = GStore { kind: ka, pool: live[a].pool.clone(), tpool: live[a].tpool.clone() };
+                let c = live[a].clone();
+                if c.terms.len() >= c.cap() {
+                    ctx.stats.bump("reach.clone_of_full_index");
+                }
                 live.insert(b, c);
                 cloned_live += 1;
                 Some(format!("clone {} {}", a, b))
@@ -801,6 +1233,9 @@ fn random_history(ctx: &mut GenCtx, g: &TermGen, h: usize, maxlen: usize) {
                 live.remove(a);
                 if cloned_live > 0 {
                     ctx.stats.bump("drop_with_clone_history");
+                }
+                if escaped {
+                    ctx.stats.bump("reach.drop_after_esc");
                 }
                 Some(format!("drop {}", a))
             }
@@ -828,34 +1263,91 @@ fn random_history(ctx: &mut GenCtx, g: &TermGen, h: usize, maxlen: usize) {
             "take" if !free.is_empty() => {
                 let b = *ctx.rng.pick(&free);
                 let s = live.remove(a).unwrap();
-                live.insert(a, GStore { kind: ka, pool: vec![], tpool: vec![] });
+                live.insert(a, GStore::new(ka));
                 live.insert(b, s);
                 Some(format!("take {} {}", a, b))
             }
             "cfrom" => {
                 let b = *ctx.rng.pick(&names);
                 if b != a && live[b].kind == ka {
-                    let c = GStore { kind: ka, pool: live[a].pool.clone(), tpool: live[a].tpool.clone() };
+                    let c = live[a].clone();
                     live.insert(b, c);
                     cloned_live += 1;
+                    if escaped {
+                        ctx.stats.bump("reach.drop_after_esc");
+                    }
                     Some(format!("cfrom {} {}", a, b))
                 } else {
                     None
                 }
             }
             "all" => Some(format!("all {}", a)),
+            "dbg" => Some(format!("dbg {}", a)),
             "fill" => {
                 let k = ctx.rng.range(3, 24);
                 let off = ctx.rng.below(40);
                 let mode = *ctx.rng.pick(&["lit", "iri", "qt", "lang"]);
+                let st = live.get_mut(a).unwrap();
+                for i in off..off + k {
+                    let t = fill_term(mode, i);
+                    let ok = if ti {
+                        st.see(&t)
+                    } else {
+                        st.see(&T::Iri("x:s".into())) && st.see(&T::Iri("x:p".into())) && st.see(&t)
+                    };
+                    if !ok {
+                        ctx.stats.bump("reach.index_full.in_fill");
+                        break;
+                    }
+                }
                 Some(format!("fill {} {} {} {}", a, k, off, mode))
             }
             "new" if !free.is_empty() => {
                 let kind = if mixed { ctx.rng.below(KINDS.len()) } else { base };
                 let nm = *ctx.rng.pick(&free);
-                live.insert(nm, GStore { kind, pool: vec![], tpool: vec![] });
+                live.insert(nm, GStore::new(kind));
                 Some(format!("new {} {} {}", nm, KINDS[kind].0, KINDS[kind].1))
             }
+            "esc" => {
+                // keep a clone of a term the store lends: mostly one it has, sometimes one it has not
+                let x = KEPT.iter().copied().find(|x| !kept.contains(x));
+                let t = if ti {
+                    if !live[a].tpool.is_empty() && ctx.rng.chance(5, 6) { Some(ctx.rng.pick(&live[a].tpool).clone()) } else { Some(g.term(&mut ctx.rng, 1)) }
+                } else if !live[a].pool.is_empty() && ctx.rng.chance(5, 6) {
+                    let q = ctx.rng.pick(&live[a].pool).clone();
+                    let mut ts = vec![q.s, q.p, q.o];
+                    if let (Some(gn), false) = (q.g, graph) {
+                        ts.push(gn);
+                    }
+                    Some(ctx.rng.pick(&ts).clone())
+                } else {
+                    Some(g.term(&mut ctx.rng, 1))
+                };
+                match (x, t) {
+                    (Some(x), Some(t)) => {
+                        kept.insert(x);
+                        escaped = true;
+                        if matches!(t, T::Triple(_)) {
+                            ctx.stats.bump("esc.quoted_triple");
+                        }
+                        Some(format!("esc {} {} {}", a, x, t.render()))
+                    }
+                    _ => None,
+                }
+            }
+            "resc" | "desc" => {
+                let ks: Vec<&'static str> = kept.iter().copied().collect();
+                if ks.is_empty() {
+                    None
+                } else {
+                    let x = *ctx.rng.pick(&ks);
+                    if op == "desc" {
+                        kept.remove(x);
+                    }
+                    Some(format!("{} {}", op, x))
+                }
+            }
+            "via" => Some(format!("via {}", ctx.rng.pick(&["own", "ref"]))),
             _ => None,
         };
         if let Some(l) = line {
@@ -867,10 +1359,68 @@ fn random_history(ctx: &mut GenCtx, g: &TermGen, h: usize, maxlen: usize) {
     for nm in live.keys() {
         ops.push(format!("all {}", nm));
     }
+    if escaped {
+        ctx.stats.bump("histories_with_esc");
+    }
     if h < 2 {
         ctx.stats.sample(format!("random history {}: {} ops on {}{}", h, ops.len(), KINDS[base].0, KINDS[base].1));
     }
     emit_h(ctx, &ops);
+}
+
+/// scripted histories around "index full" on the six-term index types (`I6`)
+fn tiny_index_patterns(ctx: &mut GenCtx, kind: &str) {
+    let nw = format!("new a {} 6", kind);
+    let ti = kind == "TI";
+    let newterm = |nm: &str, i: usize| {
+        if ti { format!("ens {} i {}", nm, hex(&format!("x:new{}", i))) } else { format!("ins {} i {} i {} i {} -", nm, hex("x:s"), hex("x:p"), hex(&format!("x:new{}", i))) }
+    };
+    let known = |nm: &str| {
+        if ti { format!("ens {} l 30 {}", nm, hex("x:fill")) } else { format!("ins {} i {} i {} l 30 {} -", nm, hex("x:s"), hex("x:p"), hex("x:fill")) }
+    };
+    // fill until refused; refused again (and again); known terms still answer; Debug walks i2t; the clone of a
+    // full index is full as well; both die in either order
+    for (mode, first) in [("lit", "a"), ("qt", "b"), ("lang", "a"), ("iri", "b")] {
+        let second = if first == "a" { "b" } else { "a" };
+        emit_h(ctx, &[nw.clone(), format!("fill a 9 0 {}", mode), newterm("a", 1), newterm("a", 2), "dbg a".into(), "all a".into(),
+            if mode == "lit" { known("a") } else { "all a".into() }, "clone a b".into(), newterm("b", 3), "dbg b".into(),
+            format!("drop {}", first), format!("all {}", second), newterm(second, 4), format!("dbg {}", second), format!("drop {}", second)]);
+        ctx.stats.bump("scripted.index_full.fill_refuse_clone_drop");
+    }
+    // refusals with owned-string terms, then clone_from / swap / take / Box of full indexes
+    emit_h(ctx, &[nw.clone(), "via own".into(), "fill a 9 0 lit".into(), newterm("a", 1), format!("new b {} 6", kind), "fill b 2 50 iri".into(),
+        "cfrom a b".into(), newterm("b", 2), "swap a b".into(), "take a c".into(), newterm("a", 3), newterm("c", 4), "box c".into(), "dbg c".into(),
+        "drop c".into(), "all a".into(), "all b".into()]);
+    ctx.stats.bump("scripted.index_full.owned_feed_cfrom_swap_take");
+    if !ti {
+        // the refusal comes in the MIDDLE of a quad: the terms before it stay in the index, no row is added
+        let g = if kind.ends_with('D') { format!("i {}", hex("x:g9")) } else { "-".into() };
+        emit_h(ctx, &[nw.clone(), "fill a 2 0 lit".into(),
+            format!("ins a i {} i {} i {} {}", hex("x:n1"), hex("x:n2"), hex("x:n3"), g), "dbg a".into(), "all a".into(),
+            format!("ins a i {} i {} i {} {}", hex("x:n1"), hex("x:n2"), hex("x:n3"), g),
+            format!("esc a x i {}", hex("x:n1")), format!("esc a y i {}", hex("x:s")), "clone a b".into(),
+            format!("rem b i {} i {} l 30 {} -", hex("x:s"), hex("x:p"), hex("x:fill")), "all b".into(), "drop a".into(), "all b".into(), "dbg b".into()]);
+        ctx.stats.bump("scripted.index_full.mid_quad");
+    }
+}
+
+/// scripted histories around terms cloned out of a store and kept (`get_term(i).clone()`)
+fn escape_patterns(ctx: &mut GenCtx, kind: &str, width: &str, ki: usize) {
+    let nw = format!("new a {} {}", kind, width);
+    let lit0 = format!("l 30 {}", hex("x:fill"));
+    let qt0 = format!("t i {} i {} l 30 {}", hex("x:s"), hex("x:p"), hex("x:fill"));
+    let lang0 = format!("g 30 {}", hex("en"));
+    let (mode, t0) = [("lit", &lit0), ("qt", &qt0), ("lang", &lang0)][ki % 3];
+    // kept clone, source dropped (the minimal history of the finding); a quoted triple owns deep copies instead
+    emit_h(ctx, &[nw.clone(), format!("fill a 3 0 {}", mode), format!("esc a x {}", t0), "all a".into(), "drop a".into(), "resc x".into(), "desc x".into()]);
+    // kept clone dropped BEFORE the source: fine; the source mutates, grows, moves, is cloned: the kept clone follows the ORIGINAL's keys
+    emit_h(ctx, &[nw.clone(), format!("fill a 3 0 {}", mode), format!("esc a x {}", t0), "desc x".into(), format!("esc a x {}", t0),
+        "fill a 40 10 iri".into(), "box a".into(), "clone a b".into(), "mv a c".into(), "resc x".into(), "drop b".into(), "resc x".into(),
+        "take c d".into(), "drop c".into(), "resc x".into(), "drop d".into(), "resc x".into()]);
+    // kept clone taken from a CLONE; clone_from over the source releases its keys as well
+    emit_h(ctx, &[nw.clone(), "via own".into(), format!("fill a 3 0 {}", mode), "clone a b".into(), format!("esc b x {}", t0), format!("esc a y {}", t0),
+        format!("new c {} {}", kind, width), "cfrom c b".into(), "resc x".into(), "resc y".into(), "all a".into(), "drop a".into(), "all b".into()]);
+    ctx.stats.add("scripted.escape_patterns", 3);
 }
 
 pub fn generate(ctx: &mut GenCtx) {
@@ -892,6 +1442,12 @@ pub fn generate(ctx: &mut GenCtx) {
     let sizes: &[usize] = if ctx.thorough { &[100, 500, 1000, 2000] } else { &[100, 300, 600] };
     let modes = ["lit", "iri", "qt", "lang"];
     for (ki, (kind, width)) in KINDS.iter().enumerate() {
+        escape_patterns(ctx, kind, width, ki);
+        if *width == "6" {
+            // six terms: everything below would only ever see "full"
+            tiny_index_patterns(ctx, kind);
+            continue;
+        }
         let nw = format!("new a {} {}", kind, width);
         // the defect of the earlier probe: insert 100 terms, clone, drop the original, iterate the clone
         emit_h(ctx, &[nw.clone(), "fill a 100 0 lit".into(), "clone a b".into(), "drop a".into(), "all b".into(),
@@ -911,7 +1467,7 @@ pub fn generate(ctx: &mut GenCtx) {
         ctx.stats.add("scripted.patterns", 6);
         // growth across the table's 2^k thresholds, before and after cloning, on the original and on the clone
         for (si, n) in sizes.iter().enumerate() {
-            if !ctx.thorough && width == &"16" && *n > 300 {
+            if !ctx.thorough && ((width == &"16" && *n > 300) || (width == &"64" && *n > 100)) {
                 continue;
             }
             let m = modes[(ki + si) % 4];
@@ -921,7 +1477,7 @@ pub fn generate(ctx: &mut GenCtx) {
             ctx.stats.bump(&format!("scripted.growth.{}", n));
         }
     }
-    let histories = if ctx.thorough { 600 } else { 120 };
+    let histories = if ctx.thorough { 800 } else { 200 };
     let maxlen = if ctx.thorough { 60 } else { 32 };
     for h in 0..histories {
         random_history(ctx, &g, h, maxlen);
